@@ -731,9 +731,10 @@ func (c *Client) Start(msg *Message, handler Handler) error {
 	if closed {
 		return ErrClientClosed
 	}
+	var t *clientTransaction
 	if handler != nil {
 		// Starting transaction only if h is set. Useful for indications.
-		t := acquireClientTransaction()
+		t = acquireClientTransaction()
 		t.id = msg.TransactionID
 		t.start = c.clock.Now()
 		t.h = handler
@@ -746,12 +747,22 @@ func (c *Client) Start(msg *Message, handler Handler) error {
 			return err
 		}
 		if err := c.a.Start(msg.TransactionID, d); err != nil {
+			if !c.release(msg.TransactionID, t) {
+				// Already completed through its handler, see below.
+				return nil
+			}
+
 			return err
 		}
 	}
 	_, err := msg.WriteTo(c.c)
 	if err != nil && handler != nil {
-		c.delete(msg.TransactionID)
+		if !c.release(msg.TransactionID, t) {
+			// The transaction was completed concurrently (response, timeout
+			// or Close) and its handler has been called: reporting the failed
+			// write as well would make the caller handle it twice.
+			return nil
+		}
 		// Stopping transaction instead of waiting until deadline.
 		if stopErr := c.a.Stop(msg.TransactionID); stopErr != nil {
 			return StopErr{
